@@ -101,7 +101,7 @@ func VerifC28_Matches() {
 // VerifC28_Allowed: a permission set grants a request iff one of its members does.
 func VerifC28_Allowed() {
 	req := verifPerm("req", true, "")
-	n := vrt.Choose("n", 0, 2)
+	n := vrt.Choose("n", 0, vrt.Bound("NMAX", 2))
 	ps := make([]Permission, n)
 	want := false
 	for i := 0; i < n; i++ {
